@@ -66,6 +66,8 @@ def merge(results):
                 agg["samples"].append(s)
         for fn, lines in (r.get("reach") or {}).items():
             agg["reach"].setdefault(fn, set()).update(lines)
+        for fn, lines in (r.get("reach_spec") or {}).items():
+            agg.setdefault("reach_spec", {})[fn] = lines
     return agg
 
 
@@ -154,7 +156,7 @@ def finish(mod, units, results, tier, seed, t0, extra_cov=None, reach_spec=None)
         "cpu_s_in_units": round(agg["unit_wall"], 1),
     }
     if agg["reach"]:
-        cov["reach"] = reach_report(agg["reach"], reach_spec)
+        cov["reach"] = reach_report(agg["reach"], agg.get("reach_spec") or reach_spec)
     if extra_cov:
         cov.update(extra_cov)
     ev = {
